@@ -32,7 +32,13 @@ def _nav(prop, tier, seed, replay=None):
     return run_nav.run(prop, tier, seed, replay)
 
 
+def _labels(prop, tier, seed, replay=None):
+    from . import run_labels
+    return run_labels.run(prop, tier, seed, replay)
+
+
 CHECKS = {
+    'C20': _labels,
     'C19': _nav,
     'C16': _nav,
 }
